@@ -326,6 +326,17 @@ def o6(ctx: Ctx):
     return out
 
 
+def o7(ctx: Ctx):
+    """O7 the order used by LevelLimit's strict comparison is the tabled total preorder of Individuals (R13.4): `>` excludes ties with the pivot."""
+    from . import c13
+
+    out = []
+    for o in c13.r13_4(ctx):
+        o.rule = "C08.O7"
+        out.append(o)
+    return out
+
+
 RULES = [
     ("C08.O1", o1, 10),
     ("C08.O2", o2, 10),
@@ -333,4 +344,5 @@ RULES = [
     ("C08.O4", o4, 8),
     ("C08.O5", o5, 2),
     ("C08.O6", o6, 3),
+    ("C08.O7", o7, 3),
 ]
